@@ -1,9 +1,9 @@
 SPECIFICATION Spec
 CONSTANTS
-  Catalogue <- CatUsage
+  Catalogue <- CatNone
   DiskC = "A"
   DiskR = "A"
-  Feat = {"usage", "msg", "stop"}
+  Feat = {"usage", "stop"}
   Feeds <- FeedsTwo
   MaxCum = 1
   Steps = {1}
